@@ -113,12 +113,22 @@ class Lifecycle(ThreadedMixin, Scenario):
             self.source2 = Stream.from_iterable(gen2(), loop=self.ioloop, asynchronous=True)
             node = self.source.union(self.source2)
             self.ctl = node
+        unwrap = None
+        if "zl" in opts:
+            # the source is the lossless input of a zip_latest whose other input already has a value
+            self.other = Stream(asynchronous=True, loop=self.ioloop)
+            node = node.zip_latest(self.other)
+            self.other.emit("o")
+            unwrap = lambda t: t[0]       # noqa: E731
         if "deep" in opts:
             # start() / stop() are called two levels below the source
             node = node.map(lambda x: x).filter(lambda x: True)
             self.ctl = node
         inner_sink = self.make_sink_fn(p["kind"], "S")
-        node.sink((lambda x: inner_sink(1 if x is None else x)) if "none" in opts else inner_sink)
+        if unwrap is not None:
+            node.sink(lambda t: inner_sink(unwrap(t)))
+        else:
+            node.sink((lambda x: inner_sink(1 if x is None else x)) if "none" in opts else inner_sink)
         if "fan" in opts:
             node.sink(self.make_sink_fn("future", "T"))
         if "thread" in opts:
@@ -336,6 +346,8 @@ def plan(ctx):
     jobs.append((("from_q", "future", 2, 5, 1.5), 1 if T else 0))       # a longer backlog in the queue
     jobs.append((("from_q", "sync", 2, 6, 1.5), 1))
     jobs.append((("from_iterable", "future", 3, 3, 0.5, "none"), 1))
+    jobs.append((("from_iterable", "future", 2, 3, 0.5, "zl"), 1))          # a combining node between the source and a slow consumer
+    jobs.append((("from_periodic", "future", 2, 0, 1.5, "zl"), 0))
     jobs.append((("from_iterable", "future", 3, 3, 0.5, "deep"), 1))
     jobs.append((("from_periodic", "sync", 3, 0, 1.5, "deep"), 1))
     jobs.append((("from_periodic", "sync", 4, 0, 2.5, "pollcancel"), 1))
